@@ -56,6 +56,20 @@ func goldilocksAdapter() *adapter {
 	ad.mul = func(k *big.Int, p pt) pt { return c.ScalarMult(gScalar(k), p.(*goldilocks.Point)) }
 	ad.mulgen = func(k *big.Int) pt { return c.ScalarBaseMult(gScalar(k)) }
 	ad.combined = func(m, n *big.Int, q pt) pt { return c.CombinedMult(gScalar(m), gScalar(n), q.(*goldilocks.Point)) }
+	type gp = *goldilocks.Point
+	ad.intoOps = []intoOp{
+		{"*z=*x", func(z, x, y pt, k *big.Int) { *z.(gp) = *x.(gp) }, intoX},
+		{"*z=*Add(x,y)", func(z, x, y pt, k *big.Int) { *z.(gp) = *c.Add(x.(gp), y.(gp)) }, intoSum},
+		{"*z=*ScalarMult(k,x)", func(z, x, y pt, k *big.Int) { *z.(gp) = *c.ScalarMult(gScalar(k), x.(gp)) }, intoMul},
+		{"*z=*Identity()", func(z, x, y pt, k *big.Int) { *z.(gp) = *c.Identity() }, intoZero},
+		{"*z=*Generator()", func(z, x, y pt, k *big.Int) { *z.(gp) = *c.Generator() }, intoOne},
+		{"z.UnmarshalBinary(x.MarshalBinary())", func(z, x, y pt, k *big.Int) {
+			b, _ := x.(gp).MarshalBinary()
+			if err := z.(gp).UnmarshalBinary(b); err != nil {
+				panic(err)
+			}
+		}, intoX},
+	}
 	ad.observers = []observer{
 		// ToAffine / ToBytes / MarshalBinary normalise the object in place
 		{"ToAffine", func(p, q pt) string {
@@ -314,6 +328,23 @@ func fourqAdapter() *adapter {
 	ad.mul = func(k *big.Int, p pt) pt { var R fourq.Point; R.ScalarMult(fqScalar(k), p.(*fourq.Point)); return &R }
 	ad.mulgen = func(k *big.Int) pt { var R fourq.Point; R.ScalarBaseMult(fqScalar(k)); return &R }
 	ad.isIdentity = func(p pt) bool { return p.(*fourq.Point).IsIdentity() }
+	k392 := func(a, b, k *big.Int) *big.Int { e := new(big.Int).Mul(a, k); return e.Mul(e, big.NewInt(392)) }
+	type fq = *fourq.Point
+	ad.intoOps = []intoOp{
+		{"z.Add(x,y)", func(z, x, y pt, k *big.Int) { z.(fq).Add(x.(fq), y.(fq)) }, intoSum},
+		{"z.ScalarMult(k,x)", func(z, x, y pt, k *big.Int) { z.(fq).ScalarMult(fqScalar(k), x.(fq)) }, func(ez, ex, ey, k *big.Int) *big.Int { return k392(ex, nil, k) }},
+		{"z.ScalarBaseMult(k)", func(z, x, y pt, k *big.Int) { z.(fq).ScalarBaseMult(fqScalar(k)) }, intoK},
+		{"z.SetIdentity()", func(z, x, y pt, k *big.Int) { z.(fq).SetIdentity() }, intoZero},
+		{"z.SetGenerator()", func(z, x, y pt, k *big.Int) { z.(fq).SetGenerator() }, intoOne},
+		{"*z=*x", func(z, x, y pt, k *big.Int) { *z.(fq) = *x.(fq) }, intoX},
+		{"z.Unmarshal(x.Marshal())", func(z, x, y pt, k *big.Int) {
+			var b [fourq.Size]byte
+			x.(fq).Marshal(&b)
+			if !z.(fq).Unmarshal(&b) {
+				panic("fourq: Unmarshal of a marshalled point failed")
+			}
+		}, intoX},
+	}
 	ad.observers = []observer{
 		{"Marshal+Unmarshal", func(p, q pt) string {
 			var b [fourq.Size]byte
@@ -334,7 +365,6 @@ func fourqAdapter() *adapter {
 			return "true"
 		}, wantTrue},
 	}
-	k392 := func(a, b, k *big.Int) *big.Int { e := new(big.Int).Mul(a, k); return e.Mul(e, big.NewInt(392)) }
 	ad.aliasOps = []aliasOp{
 		{"P.Add(P,Q)", func(P, Q pt, k *big.Int) pt { p := P.(*fourq.Point); p.Add(p, Q.(*fourq.Point)); return p }, expSum},
 		{"Q.Add(P,Q)", func(P, Q pt, k *big.Int) pt { q := Q.(*fourq.Point); q.Add(P.(*fourq.Point), q); return q }, expSum},
@@ -477,6 +507,33 @@ func ristrettoAdapter() *adapter {
 	ad.neg = func(p pt) pt { return g.NewElement().Neg(p.(group.Element)) }
 	ad.mul = func(k *big.Int, p pt) pt { return g.NewElement().Mul(p.(group.Element), sc(k)) }
 	ad.mulgen = func(k *big.Int) pt { return g.NewElement().MulGen(sc(k)) }
+	type ge = group.Element
+	ad.intoOps = []intoOp{
+		{"z.Neg(x)", func(z, x, y pt, k *big.Int) { z.(ge).Neg(x.(ge)) }, intoNeg},
+		{"z.Add(x,y)", func(z, x, y pt, k *big.Int) { z.(ge).Add(x.(ge), y.(ge)) }, intoSum},
+		{"z.Dbl(x)", func(z, x, y pt, k *big.Int) { z.(ge).Dbl(x.(ge)) }, intoDbl},
+		{"z.Mul(x,k)", func(z, x, y pt, k *big.Int) { z.(ge).Mul(x.(ge), sc(k)) }, intoMul},
+		{"z.MulGen(k)", func(z, x, y pt, k *big.Int) { z.(ge).MulGen(sc(k)) }, intoK},
+		{"z.Set(x)", func(z, x, y pt, k *big.Int) { z.(ge).Set(x.(ge)) }, intoX},
+		{"z.Set(Identity)", func(z, x, y pt, k *big.Int) { z.(ge).Set(g.Identity()) }, intoZero},
+		{"z.Set(Generator)", func(z, x, y pt, k *big.Int) { z.(ge).Set(g.Generator()) }, intoOne},
+		{"z.CMov(1,x)", func(z, x, y pt, k *big.Int) { z.(ge).CMov(1, x.(ge)) }, intoX},
+		{"z.CMov(0,x)", func(z, x, y pt, k *big.Int) { z.(ge).CMov(0, x.(ge)) }, intoKeep},
+		{"z.CSelect(1,x,y)", func(z, x, y pt, k *big.Int) { z.(ge).CSelect(1, x.(ge), y.(ge)) }, intoX},
+		{"z.CSelect(0,x,y)", func(z, x, y pt, k *big.Int) { z.(ge).CSelect(0, x.(ge), y.(ge)) }, intoY},
+		{"z.UnmarshalBinary(x.MarshalBinary())", func(z, x, y pt, k *big.Int) {
+			b, _ := x.(ge).MarshalBinary()
+			if err := z.(ge).UnmarshalBinary(b); err != nil {
+				panic(err)
+			}
+		}, intoX},
+		{"z.UnmarshalBinary(x.MarshalBinaryCompress())", func(z, x, y pt, k *big.Int) {
+			b, _ := x.(ge).MarshalBinaryCompress()
+			if err := z.(ge).UnmarshalBinary(b); err != nil {
+				panic(err)
+			}
+		}, intoX},
+	}
 	ad.observers = []observer{
 		{"MarshalBinary", func(p, q pt) string { b, _ := p.(group.Element).MarshalBinary(); return hex.EncodeToString(b) }, wantEnc},
 		{"MarshalBinaryCompress+Unmarshal", func(p, q pt) string {
